@@ -221,3 +221,61 @@ def u_gate_core(U):
         st.assume(T.d0(t) == r1, T.d1(t) == n, T.d2(t) == r2, r1 >= 1, r2 >= 1)
         st.vars.update(G=VArr((r1, n, r2), t, 'core'), e=z3.Real('e'), r=z3.Real('r'))
     _pow2_gate(U, 'core', 'core_tt_to_qtt', setup, ('A',))
+
+
+# ----------------------------------------------------------------------------------------------
+# grid_prep_opts: inconsistent option lengths are rejected (C18)
+
+def _prep_unit(U, kinds):
+    fn = U.func('grid', 'grid_prep_opts')
+
+    def stop(stmt):
+        return isinstance(stmt, _ast.Assign) and isinstance(stmt.targets[0], _ast.Name) and stmt.targets[0].id == 'a'
+
+    if not any(stop(s_) for s_ in fn.body):
+        raise M.ContractMismatch('grid_prep_opts: the normalisation `a = grid_prep_opt(...)` after the length check is gone')
+    ex = U.executor(fn, stop_at=stop)
+    st = U.state()
+    d = S.opt_int('d')
+    lens, vals = [], {}
+    for nm, k in zip('abn', kinds):
+        if k == 'list':
+            L = z3.Int('len_' + nm)
+            lens.append(L)
+            arr = z3.Const('opt_' + nm, z3.ArraySort(z3.IntSort(), z3.RealSort()))
+            vals[nm] = st.alloc(VSeq(arr, L, lambda t: t, tag='real'))
+            st.assume(L >= 0)
+        elif k == 'scalar':
+            vals[nm] = z3.Real('opt_' + nm)
+        else:
+            vals[nm] = NONE
+    st.vars.update(a=vals['a'], b=vals['b'], n=vals['n'], d=d, reps=NONE)
+    res = U.run(ex, st)
+    U.cover('reachable', U.pre)
+    if lens:
+        target = z3.If(d.isnone, lens[0], d.val)
+        bad = z3.Or([L != target for L in lens])
+    else:
+        bad = z3.BoolVal(False)
+    for p, o in res:
+        if o.kind == 'raise':
+            U.raise_iff('rejects-only-inconsistent-lengths', p, bad)
+            U.raise_iff('raises-ValueError', p, o.exc == 'ValueError')
+        elif o.kind == 'stop':
+            U.raise_iff('accepts-only-consistent-lengths (lists agree with each other and with d when given)', p, z3.Not(bad))
+            if lens:
+                dv = p.vars['d']
+                U.post('dimension-is-the-common-length', p, Z(dv.val if isinstance(dv, VOpt) else dv) == lens[0])
+        else:
+            U.post('length-check-comes-first', p, False)
+    if lens:
+        U.canary('canary-never-rejects', U.pre, z3.Not(bad))
+
+
+for _ks in (('list', 'list', 'list'), ('list', 'scalar', 'list'), ('scalar', 'list', 'none'), ('none', 'none', 'list'),
+            ('scalar', 'scalar', 'scalar')):
+    def _mk(ks=_ks):
+        @unit('grid.grid_prep_opts.' + ''.join(k[0] for k in ks), props=('C18',))
+        def u(U):
+            _prep_unit(U, ks)
+    _mk()
